@@ -2,6 +2,7 @@
 import Driver.Proto
 import GoldilocksVerif.Gen.Scalar
 import GoldilocksVerif.Model.Inv
+import GoldilocksVerif.Model.Conv
 namespace Driver
 open Gen.Scalar
 
@@ -33,11 +34,34 @@ def c10 (fn : String) (args : List Arg) : Option String :=
   | "exp", [.w b, .w e] => okW [GoldilocksVerif.Model.exp b e]
   | _, _ => none
 
+/-- C15: conversions -/
+def c15 (fn : String) (args : List Arg) : Option String :=
+  open GoldilocksVerif.Model in
+  match fn, args with
+  | "fromS64", [.w x] => okW [fromS64 x]
+  | "fromS32", [.w x] => okW [fromS32 (x.truncate 32)]
+  | "fromString", [.w radix, .s str] => match fromString str radix.toNat with
+      | some r => okW [r]
+      | none => some "err bad-numeral"
+  | "fromScalar", [.w radix, .s str] => match fromString str radix.toNat with
+      | some r => okW [r]
+      | none => some "err bad-numeral"
+  | "toS64", [.w a] => okW [BitVec.ofInt 64 (toS64 a)]
+  | "toS32", [.w a] => let r := toS32 a
+      if r.1 then okW [1#64, BitVec.ofInt 64 r.2] else okW [0#64]
+  | "rt32", [.w x] => let r := toS32 (fromS32 (x.truncate 32))
+      if r.1 then okW [1#64, BitVec.ofInt 64 r.2] else okW [0#64]
+  | "toString", [.w a, .w radix] => some ("ok s:" ++ toStringR a radix.toNat)
+  | _, _ => none
+
 def handDispatch (fn : String) (args : List Arg) : Option String :=
   match c01Alias fn args with
   | some s => some s
   | none =>
   match c10 fn args with
+  | some s => some s
+  | none =>
+  match c15 fn args with
   | some s => some s
   | none => none
 
